@@ -10,7 +10,7 @@
 (* specification TraceMain.tla, which checks recorded executions of the    *)
 (* real code against them.                                                 *)
 (***************************************************************************)
-EXTENDS Upgrade
+EXTENDS Upgrade, Search
 
 CONSTANTS
   Indexes,        \* index numbers in the database, e.g. {1, 2}
@@ -29,7 +29,8 @@ CONSTANTS
   AtLeastOne,     \* FALSE: reproduce finding F4
   WithTxn,        \* explore Commit / Abort
   WithCancel,     \* explore cancellation at every phase boundary
-  WithAppend      \* explore append_item and rejected calls
+  WithAppend,     \* explore append_item and rejected calls
+  QueryFlip       \* TRUE: the query is routed to the wrong side first (sensitivity of the search theorems)
 
 VARIABLES
   db,         \* [Indexes -> index value]: what the open write transaction sees
@@ -378,6 +379,45 @@ MetricChange ==
 
 \* C08/C10 (design level): abort restores exactly what was committed
 AbortRestores == [][(db' = committed /\ poisoned' = FALSE) \/ poisoned' = poisoned \/ poisoned']_vars
+
+\* ---- search on every reachable forest (C02, C03, C04; the algorithm is Search.tla part 1) ----
+\* a query is a vector token q; at a split with a normal plane the query's own side gets priority +1, the
+\* other side -1; a zero plane gives 0 to both (ties are broken by the node reference, as in the code);
+\* the distance rank of an item is 0 when it carries the query's token, 1 otherwise (ties by id).
+PrioOf(i, q) ==
+  [x \in (DOMAIN db[i].nodes) \X {"L", "R"} |->
+     LET n == db[i].nodes[x[1]] IN
+     IF ~IsSplit(n) \/ n.plane.zero THEN 0
+     ELSE IF ((q \in n.plane.right) = (x[2] = "R")) # QueryFlip THEN 1 ELSE -1]
+DRank(i, q) == [x \in Live(db[i]) |-> IF db[i].store[x] = q THEN 0 ELSE 1]
+Unlimited == 1000000
+
+SearchExactWhenUnlimited ==
+  Quiescent => \A i \in Indexes : fresh[i] => \A q \in Toks : \A count \in 0 .. (Cardinality(Ids) + 1) :
+     \A filter \in {Live(db[i]), {x \in Live(db[i]) : x % 2 = 1}, {}} :
+        Answer(db[i].nodes, db[i].meta.roots, count, Unlimited, filter, PrioOf(i, q), DRank(i, q))
+          = TakeBest(filter, count, DRank(i, q))
+
+\* enlarging the budget only ever extends the sequence of visited candidates, hence never worsens the answer
+VisitMonotoneInBudget ==
+  Quiescent => \A i \in Indexes : fresh[i] => \A q \in Toks : \A k \in 1 .. (2 * Cardinality(Ids)) :
+     LET va == Visit(db[i].nodes, db[i].meta.roots, k, Live(db[i]), PrioOf(i, q))
+         vb == Visit(db[i].nodes, db[i].meta.roots, k + 1, Live(db[i]), PrioOf(i, q))
+     IN Len(va) <= Len(vb) /\ SubSeq(vb, 1, Len(va)) = va
+
+\* a stored item queried by its own vector with the smallest budget is among the candidates whenever one
+\* tree leads to it through normal planes only
+SelfLookupWithBudgetOne ==
+  Quiescent => \A i \in Indexes : fresh[i] => \A x \in Live(db[i]) :
+     LET S(plane, item) == IF plane.zero THEN "U" ELSE IF db[i].store[item] \in plane.right THEN "R" ELSE "L"
+         q == db[i].store[x]
+     IN (\E t \in DOMAIN db[i].meta.roots : DecidedPath(db[i].nodes, db[i].meta.roots[t], x, S))
+          => x \in SeqToSet(Visit(db[i].nodes, db[i].meta.roots, 1, Live(db[i]), PrioOf(i, q)))
+
+\* the documented default budget saturates
+BudgetSaturates ==
+  \A count \in {0, 1, 3, 1000000} : \A nt \in 0 .. 3 : \A over \in {0, 1, 3, 1000000} :
+     Budget(count, 0, over, nt, 1, Unlimited) <= Unlimited
 
 \* C17 (design level): the upgrade functions on every reachable index value
 UpgradePreservesContent == \A i \in Indexes : RoundTrip(db[i]) /\ VersionStamp(db[i])
